@@ -1,5 +1,6 @@
 import TunnoxModel.Proofs.C19SimK
 import TunnoxModel.Proofs.C19Fault
+import TunnoxModel.Proofs.C19Reg
 /-!
 # C19 — a public domain routes only to its single rightful owner
 
@@ -49,7 +50,14 @@ theorem skel_lookupMapping : Skel.lookupMapping =
 theorem skel_lookupFromRepository : Skel.lookupFromRepositoryWithRepo =
     ["repo.LookupByDomain", "IsActive", "IsExpired", "convertHTTPDomainMappingToPortMapping"] := by decide
 
-theorem skel_Registry : Skel.Registry_Register = ["FullDomain", "IsBaseDomainAllowed", "mu.Lock", "mu.Unlock"] ∧
+/-- `DomainRegistry`: lock facts.  `Register` checks the base domain under the read lock, then decides "owned by a
+different mapping ID?" and stores the new owner inside ONE write-locked section (lock, deferred unlock, then both
+accesses to `r.mappings`; no read-locked `Lookup` in between); `Unregister` and `Lookup` are one section each. -/
+theorem skel_Registry :
+    Skel.Registry_Register = ["FullDomain", "IsBaseDomainAllowed", "mu.Lock", "defer mu.Unlock", "@r.mappings", "@r.mappings"] ∧
+    Skel.Registry_Unregister = ["mu.Lock", "defer mu.Unlock", "@r.mappings", "@r.mappings"] ∧
+    Skel.Registry_Lookup = ["mu.RLock", "defer mu.RUnlock", "@r.mappings"] ∧
+    Skel.Registry_IsBaseDomainAllowed = ["mu.RLock", "defer mu.RUnlock", "@r.baseDomains", "@r.baseDomains"] ∧
     Skel.Registry_LookupByHost = ["Lookup"] := by decide
 
 /-- Side condition on the key prefixes: keys of the four families (index, record, delete claim, client list)
@@ -294,6 +302,33 @@ theorem C19_failed_create_rolls_back (cf : Config) (s : Store) (cl : Nat) (sub b
 /-- Non-vacuity: the record write failing after a successful claim is rolled back. -/
 example : (createFault ⟨.repaired, 0, ["t.net"], []⟩ (initStore ⟨⟨.repaired, 0, ["t.net"], []⟩, [], [], []⟩) 1 "a" "t.net" "h" 80 3).2
     = .err Gen.coreerrors.CodeStorageError := by decide +kernel
+
+/-! ### the registry as arbiter: simultaneous claimants of one name -/
+
+/-- **Single owner in `DomainRegistry`, every interleaving.**  For every set of threads, every history of
+`Register` / `Unregister` / `LookupByHost` calls per thread (arbitrary mappings, names, IDs, base-domain lists) and
+every schedule of their lock sections: two `Register` calls for the same full domain with different mapping IDs are
+never both told "registered" while the first still owns the name — many clients claiming one name at the same
+moment included — and `LookupByHost` answers with the owner. -/
+theorem C19_registry_single_owner (i : RInput) (hns : i.cf.split = false) : holdsReg (modelReg i) = true :=
+  holdsReg_model i hns
+
+def pmOf (id : String) (client : Nat) : PM := ⟨id, client, "h", 80, "shared", "t.net", "active", false, 0⟩
+
+/-- Two clients claim `shared.t.net` at the same moment; the schedule lets both run their first two sections before
+either one's last. -/
+def regWitness (split : Bool) : RInput :=
+  { cf := ⟨split, ["t.net"]⟩, threads := [[.register (pmOf "m1" 1)], [.register (pmOf "m2" 2), .lookup "shared.t.net:80"]],
+    sched := [0, 1, 0, 1, 0, 1, 0, 1] }
+
+/-- **Check-then-store split** (the duplicate check in its own read-locked section before the store): both
+claimants are told "registered". -/
+theorem C19_registry_split_witness : holdsReg (modelReg (regWitness true)) = false := by decide +kernel
+
+/-- The same schedule on the model of the tree: one winner, the other is refused, the lookup finds the winner. -/
+theorem C19_registry_atomic_witness :
+    (modelReg (regWitness false)).filterMap (fun s => s.ret.map (·.2)) =
+      [.ok, .err Gen.coreerrors.CodeAlreadyExists, .found "m1" 1] := by decide +kernel
 
 /-! ### the tree as found: the witness -/
 
